@@ -423,8 +423,14 @@ class Spectrum:
         for end in (spectrum_wave[0], spectrum_wave[-1]):
             wave = np.where(np.abs(wave - end) <= _WAVE_RTOL*abs(end), end, wave)
 
+        # (values in double precision as well: single and half precision
+        # values are interpolated in their own precision otherwise, and a
+        # one-sample spectrum comes back as NaN)
+        spectrum_value = np.asarray(spectrum.value)
+        spectrum_value = spectrum_value.astype(np.result_type(spectrum_value.dtype, np.float64))
+
         interp = scipy.interpolate.interp1d(spectrum_wave,
-                                            spectrum.value, kind=method,
+                                            spectrum_value, kind=method,
                                             copy=False, bounds_error=False,
                                             fill_value=fill_value)
 
